@@ -144,4 +144,30 @@ theorem runIts_full (n : Nat) (d : SCfg) (hd : d.params.length = n) : ∀ (its :
     rw [e, ih (applyIt d it d) (applyIt_params_length n d d it hd hd)
       (fun it' h' => hfull it' (List.mem_cons_of_mem _ h'))]
 
+
+/-! ### the one-slot cache -/
+
+/-- a slot is coherent when it holds the value of its key -/
+def SlotOk {K V : Type} (f : K → V) (slot : Option (K × V)) : Prop := ∀ k v, slot = some (k, v) → v = f k
+
+theorem slotStep_ok {K V : Type} [DecidableEq K] (f : K → V) (slot : Option (K × V)) (k : K) (h : SlotOk f slot) :
+    SlotOk f (slotStep f slot k).1 ∧ (slotStep f slot k).2 = f k := by
+  have hnew : SlotOk f (some (k, f k)) := by
+    intro k' v' e
+    simp only [Option.some.injEq, Prod.mk.injEq] at e
+    obtain ⟨rfl, rfl⟩ := e
+    rfl
+  cases slot with
+  | none => exact ⟨hnew, rfl⟩
+  | some kv =>
+    obtain ⟨k0, v0⟩ := kv
+    by_cases hk : k0 = k
+    · subst hk
+      have e : slotStep f (some (k0, v0)) k0 = (some (k0, v0), v0) := by simp [slotStep]
+      rw [e]
+      exact ⟨h, h k0 v0 rfl⟩
+    · have e : slotStep f (some (k0, v0)) k = (some (k, f k), f k) := by simp [slotStep, hk]
+      rw [e]
+      exact ⟨hnew, rfl⟩
+
 end PM.C09
